@@ -245,9 +245,17 @@ impl ZmodN {
             let (mi, c) = m[i + sz].overflowing_add(carryn);
             m[i + sz] = mi;
             if c {
-                assert!(i + sz + 1 < m.len());
-                // FIXME: overflow
-                m[i + sz + 1] += u64::from(c);
+                // Propagate the carry through all-ones words.
+                let mut idx = i + sz + 1;
+                loop {
+                    assert!(idx < m.len());
+                    let (mi, c) = m[idx].overflowing_add(1);
+                    m[idx] = mi;
+                    if !c {
+                        break;
+                    }
+                    idx += 1;
+                }
             }
         }
         let mut m: [u64; MINT_WORDS] = m[sz..sz + MINT_WORDS].try_into().unwrap();
